@@ -427,6 +427,12 @@ def _keygen(func, ignored, *args, **kwds):
     # if safe and signature failed, return unmolested *args, **kwds
     if explicitly_named is None and user_kwds is None:
         return user_args, kwds.copy()
+    # a keyword named like a positional-only parameter (f(1, x=2) for
+    # def f(x, /, **kwds)) is one of the varkwds, and not that parameter
+    code = getattr(func, '__code__', None)
+    posonly = explicitly_named[:getattr(code, 'co_posonlyargcount', 0)]
+    if posonly:
+        kwds = dict(('/'+k if k in posonly else k, v) for (k,v) in kwds.items())
     # mix-in the function's defaults to the user provided kwds
     if defaults:
         user_kwds.update(kwds)
